@@ -50,6 +50,11 @@ CHECKS = {
    level_text='Design: on MailboxSync.tla TLC checks that no step of a session with a read-only selection changes the store. Code: one session EXAMINEs INBOX or SELECTs a backend-read-only mailbox and issues seeded random programs of every message command and UID variant (STORE incl. \\Recent, \\Seen-setting FETCH, EXPUNGE, UID EXPUNGE, COPY, MOVE, SEARCH, NOOP, CHECK, CLOSE) and APPEND/COPY/MOVE into the read-only mailbox, interleaved at every lock checkpoint with 0-2 observing sessions; after every tagged response a dump (UIDs, permanent flags, stored recent bits) is logged; TLC checks on each recorded execution that every dump equals the baseline, that STORE/EXPUNGE/deliveries into the read-only mailbox answer NO, and that CLOSE answers OK and deselects.',
    level_note='Trusted: TLC, strict response parser, glass-box dump of MailboxData._messages (incl. Message.recent = what the next read-write session is given). Other sessions only observe, as the property says. APPEND/COPY by the examining session into the examined mailbox are ordinary deliveries (covered by C17 for the \\Recent clause). Dict backend.',
    design_ref='DESIGN.md section 7 C12'),
+ 'C13': dict(
+   technique='reference SEARCH evaluator written in TLA+ (Search.tla, recursive Eval over key trees) checked by TLC; the <view, program, allowed answers> triples TLC enumerates are replayed as SEARCH and UID SEARCH on the real server, including views with hidden expunged messages',
+   level_text='TLC checks algebraic sanity of the evaluator itself (NOT NOT k = k, OR a b = NOT(NOT a AND NOT b), UID result = sequence result mapped through the view) and enumerates mailboxes of <= 3 abstract messages (flags, size class, internal/sent date indices, header and body tokens) x key trees of depth <= 2 over every supported key; each triple is concretised (real messages with those flags, sizes, dates at day boundaries in non-UTC zones, headers) and run as SEARCH and UID SEARCH; the id list must be one of the answers Eval allows. Logically equivalent programs are compared too. About 45k executions in the quick tier.',
+   level_note='Where RFC 3501 is ambiguous (date keys and time zones, expunged-but-unannounced messages under RFC 2180) the model allows both answers. Dict backend. Three open known findings (BODY matches headers, NOT NOT refused, sequence set read as UIDs in UID SEARCH).',
+   design_ref='DESIGN.md section 7 C13'),
  'C14': dict(
    technique='fault injection at every parking point of the real execution of MOVE/COPY/multi-APPEND/EXPUNGE (task cancellation, disconnect, exception from that storage call) with a second session, store logged after every driver step, validated by TLC against the conservation observer spec Trace_Conserve.tla',
    level_text='For each seeded command instance the harness first measures the parking points of its real execution (lock checkpoints) and then repeats the run once per point and fault kind, with a second session\'s command at a seeded placement; the content of all mailboxes is logged after EVERY driver step, so the invariant is evaluated at every instant between two critical sections, not only at the end. TLC checks: no content id ever vanishes (except \\Deleted messages while an EXPUNGE/CLOSE is in flight), a MOVE answered OK left each message exactly in the destination under the COPYUID UID, a multi-APPEND that did not end OK left nothing, a command answered NO/BAD left everything unchanged. Open known findings are tolerated INSIDE the observer (named deviation) so the remaining clauses are still checked on those traces.',
